@@ -59,8 +59,9 @@ func (x *userGuardian) Receive(ctx *ReceiveContext) {
 		}
 	case *Terminated:
 		actorID := msg.ActorPath()
-		if x.logger.Enabled(log.DebugLevel) {
-			x.logger.Debugf("actor=%s received terminated actor=%s", x.pid.Name(), actorID)
+		// Terminated is a control message and may be handled before PostStart: do not rely on x.logger/x.pid
+		if logger := ctx.Logger(); logger.Enabled(log.DebugLevel) {
+			logger.Debugf("actor=%s received terminated actor=%s", ctx.Self().Name(), actorID)
 		}
 		// pass
 	default:
